@@ -103,6 +103,11 @@ class Lab:
             def block(self, ev):
                 ev.wait()
 
+        import bluesky.suspenders as bsus
+
+        self._saved_sus = bsus.threading
+        bsus.threading = shim  # SuspenderBase.__make_event waits on a threading.Event for a loop callback
+        self._bsus = bsus
         self._saved = (rem.threading, rem._ensure_event_loop_running)
         rem.threading = shim
         rem._ensure_event_loop_running = lambda lp: threading.current_thread()
@@ -227,6 +232,7 @@ class Lab:
         for fn in getattr(self, "cleanups", []):
             fn()
         self._rem.threading, self._rem._ensure_event_loop_running = self._saved
+        self._bsus.threading = self._saved_sus
         try:
             self.loop.close()
         except Exception:  # noqa
